@@ -102,7 +102,9 @@ def main():
         for f in r["failures"]:
             lab = f["label"]
             mine = lab.startswith(prop + ".") and (prop != "C10" or f["fn"] in carriers or f.get("origin_kind") in ("spec", "raw"))
-            if lab == "proof-step" and f["fn"] in carriers:
+            if lab == "proof-step":
+                # an unlabelled contract clause / proof step / callee precondition failed somewhere in this unit: every
+                # property decided by the unit may lean on it (modular proofs use the helper's contract), so it counts for all
                 mine = True
             if mine:
                 g = dict(f); g["unit"] = r["unit"]; g["engine"] = "verus"
